@@ -80,6 +80,11 @@ func (r *recorder) rec(svc, m string, arg interface{}, nf bool) error {
 	switch r.ans {
 	case "ok":
 		return nil
+	case "err_alloc", "err_put", "err_pin": // the add pipeline fails at one step
+		if m == map[string]string{"err_alloc": "BlockAllocate", "err_put": "BlockPut", "err_pin": "Pin"}[r.ans] {
+			return errScripted
+		}
+		return nil
 	case "notfound":
 		if nf {
 			return state.ErrNotFound
